@@ -23,6 +23,7 @@
 //	                                         leader's WAL), or a leader started from a log prefix that ends inside the
 //	                                         cleanup finds the session alive without all its records / gone with some left
 //	session-cleanup:other-record-touched / owned-record-survived (no interleaving involved) / session-key-survived
+//	session:lost-after-leader-change / resurrected-after-leader-change / never-expires-after-leader-change   (lagging.go)
 //	session:leader-close-blocked-by-expiring-session   (watchdog of the leader-change scenario, see closeLeader)
 //
 // The O-12 schedules are forced, not raced: the kv.Factory handed to the controller is wrapped, and the key iterator
@@ -962,6 +963,10 @@ func main() {
 		scens = append(scens, scen{"o12-close", 0, v + 5*rng.Intn(2)}, scen{"o12-expiry", 150 * time.Millisecond, v + 5*rng.Intn(2)})
 	}
 	scens = append(scens, scen{"close-during-expiry", 100 * time.Millisecond, 0})
+	// leader changes on a node whose DB is behind its log (see lagging.go): commit offset and rf from the variant
+	for i := 0; i < 12; i++ {
+		scens = append(scens, scen{"lagging-leader", hx.Pick(rng, []time.Duration{150, 200, 300}) * time.Millisecond, rng.Intn(100000)*1000 + i})
+	}
 	for _, size := range []int{0, 1, 999, 1000, 1001, 1500} {
 		scens = append(scens, scen{"big", 0, size})
 	}
@@ -982,7 +987,11 @@ func main() {
 		go func(s scen) {
 			defer wg.Done()
 			defer func() { <-sem }()
-			runScen(s, o, &mu)
+			if s.name == "lagging-leader" {
+				runLagging(s, o, &mu)
+			} else {
+				runScen(s, o, &mu)
+			}
 		}(s)
 	}
 	wg.Wait()
